@@ -121,7 +121,8 @@ type cacheMap = map[string]interface{}
 // one of its entries are different objects is given by Go's typing and appears here as an explicit hypothesis.
 
 //@ func SaveRevisionConfig
-//@   props C29
+//@   props C29 C10
+//@   ensures [snapshot-always-refreshed] result == nil && calledWith("(*State).Get", 1, "revision-config") ==> called("(*State).Set")
 //@   guard call (*State).Get: [reads-config-then-snapshots] arg0 == st && (arg1 == "config" || (arg1 == "revision-config" && called("(*State).Get")))
 //@   guard call (*State).Set: [snapshot-is-the-committed-config] arg0 == st && arg1 == "revision-config" && arg2v == revisionConfig && (cfgs != revisionConfig ==> has(revisionConfig, snapName) && has(revisionConfig[snapName], revKey(rev)) && revisionConfig[snapName][revKey(rev)] == snapcfg)
 
